@@ -37,6 +37,8 @@ let dispatch kind fields =
   | "DETECT" -> K_detect.run_detect fields
   | "CONFIG" -> K_config.run_config fields
   | "ISO" -> K_iso.run_iso fields
+  | "DECRYPT" -> K_tools.run_decrypt fields
+  | "TARGET" -> K_tools.run_target fields
   | _ -> failwith ("unknown kind " ^ kind)
 
 let () =
